@@ -89,6 +89,7 @@ pub fn skip_whitespace(input: &mut LineReader) {
 /// Parses a non-negative integer.
 #[inline]
 pub fn uint(input: &mut LineReader) -> Parsed<u64, String> {
+    input.reader.set_mark();
     let (value, offset) = text::ascii_digits_multi(input.reader(), 0);
     if offset != 0 {
         if input.reader.buf()[0] != b'0' || offset == 1 {
